@@ -45,9 +45,11 @@ for j in $(seq 1 "$JOBS"); do
   for a in "$WORK/a$j"/*; do
     [ -f "$a" ] || continue
     case "$(basename "$a")" in
+      slow-unit-*) ;;   # a report about speed, not a verdict
       crash-*)
         h=$(sha1sum "$a" | cut -c1-16)
         mkdir -p "$ROOT/replays"
+        [ -f "$ROOT/replays/$ID-fuzz-$h.bin" ] && continue
         cp "$a" "$ROOT/replays/$ID-fuzz-$h.bin"
         grep -a -m1 "VIOLATION property=" "$WORK/log$j" | sed 's/^/  /' | cut -c1-600
         grep -a -m1 "ERROR: AddressSanitizer" "$WORK/log$j" | sed 's/^/  /'
